@@ -6,6 +6,13 @@ VERIF = os.path.dirname(os.path.dirname(os.path.abspath(__file__)))
 
 # id -> (category, technique, text, note)
 CLAIMS = {
+    'C05': ('other',
+            'static analysis: abstract interpretation of list positions in the constant-folding loop (left/right operand identity), operator-set inclusion between the zero-drop and unwrap guards',
+            'Decides two necessary operand-discipline conditions of meaning preservation: every folding branch applies the Python operator its operator string '
+            'names, with LEFT.arg OP RIGHT.arg for non-commutative operators, at the operands\' width; every operator whose trailing literal 0 is dropped has 0 as '
+            'right-neutral element and is unwrapped when one operand remains; the unwrap list contains no unary operator.',
+            'Not decided (quantifies over values, no honest structural surrogate): soundness of each rewrite\'s side condition for all constants and widths, width '
+            'preservation through merge_sliceto_slice, termination of the fixpoint loop.'),
     'C19': ('other',
             'static analysis: def-use audit of every PLY grammar action (token-class positions from the production docstrings) for case folding and number normalisation',
             'In both grammars every token of a class the lexer classifies case-insensitively (REGISTER, SEGMENT, ST, size keywords) is folded before it is used as '
